@@ -313,6 +313,36 @@ def run_shard(ctx, spec):
         ctx.stats["containment_module_cases"] += len(items)
         if items:
             ctx.sample({"family": "containment between namesakes in different modules", "files": items[0][0]}, limit=1)
+    elif kind == "alias-chains":
+        # alias chains of length 1-4 spread over modules and files, every link spelled relative to its own module, same-named
+        # decoys elsewhere: a chain that closes on itself is rejected, one that ends in a concrete type is accepted - whatever
+        # the module the resolution happens to start from
+        import random as _random
+        from ..slicegen import printer as _printer
+        from . import c03
+        _, count, idx = spec
+        rng = ctx.rng("ac/%d" % idx)
+        items = []
+        for _ in range(count):
+            loop = rng.random() < 0.5
+            prog = c03.chain_program(_random.Random(rng.random()), rng.randint(1, 4), rng.choice(c03.ENDS),
+                                     rng.choice(["field", "parameter", "return", "alias", "seq-elem", "dict-value", "enumerator-field"]), loop=loop)
+            items.append((_printer.print_program(prog), loop))
+        resps = ctx.worker.batch([{"op": "compile", "files": it[0], "want": ["diags"]} for it in items])
+        for (texts, loop), r in zip(items, resps):
+            ctx.note_case(("alias-chain", tuple(texts)))
+            ctx.stats["alias_chain_cases"] += 1
+            replay = {"kind": "library", "call": "compile_from_strings", "files": texts, "family": "alias-chains", "closes_on_itself": loop}
+            if "died" in r or r.get("panic"):
+                p = r.get("panic") or {"message": "worker " + r["died"], "location": "?"}
+                ctx.violate(core.panic_signature(p), "alias resolution crashed: %s" % p, replay)
+                continue
+            errors = [d for d in r["diags"] if d["level"] == "error"]
+            replay["observed"] = [d["code"] + ": " + d["message"] for d in r["diags"]][:6]
+            if loop and not errors:
+                ctx.violate("alias-loop-accepted:chain", "an alias chain that closes on itself (across modules) compiled without error", replay)
+            elif not loop and errors:
+                ctx.violate("alias-acyclic-rejected:chain", "an alias chain that ends in a concrete type was rejected: %s" % errors[0]["message"], replay)
     elif kind == "alias":
         _, idx, nshards = spec
         n = 4
@@ -451,6 +481,7 @@ def plan(tier, seed):
     ncm = 8000 if tier == "quick" else 150000
     specs += [("containment-modules", ncm // 16, i) for i in range(16)]
     specs += [("alias", i, 8) for i in range(8)]
+    specs += [("alias-chains", (4000 if tier == "quick" else 60000) // 16, i) for i in range(16)]
     specs += [("alias-anon", (30000 if tier == "quick" else 400000) // 16, i) for i in range(16)]
     specs += [("inherit", 1, 0, 1), ("inherit", 2, 0, 1)] + [("inherit", 3, i, 4) for i in range(4)]
     if tier == "thorough":
@@ -472,7 +503,7 @@ def main(tier, seed):
               "generating graph; every reported chain and note is validated against the generated fields. distinct_nontrivial = "
               "distinct graphs (with wrappers and node kinds) having at least one edge" % len(WRAPPERS)),
         required={"cyclic_cases": 500, "acyclic_cases": 50, "chains_checked": 500, "notes_checked": 500, "alias_cyclic": 100,
-                  "alias_acyclic": 50, "inherit_acyclic": 20, "inherit_cyclic": 20, "alias_anon_graphs": 1000, "containment_module_cases": 4000},
+                  "alias_acyclic": 50, "inherit_acyclic": 20, "inherit_cyclic": 20, "alias_anon_graphs": 1000, "containment_module_cases": 4000, "alias_chain_cases": 2000},
         assumptions=["a cycle through an optional, sequence, dictionary (key or value) or result is illegal, as the statement says",
                      "for alias and inheritance loops only rejection (some error, no crash) is required, not a particular code, "
                      "except that E019 must name an alias that really is on a loop"],
